@@ -93,6 +93,18 @@ pub fn generate(rng: &mut Rng, thorough: bool) -> Vec<String> {
         let ins_s = rng.range(-4_000_000_000, 4_000_000_000) * 1_000_000_000 + ms * 1_000_000 + us * 1000 + ns;
         v.push(format!("f_zdts {ins_s} {zs} {} {} {p} {su} {mo}", rng.pick(&["auto", "never"]), rng.pick(&["auto", "never", "critical"])));
         v.push(format!("rt_zdts {ins_s} {zs}"));
+        // an instant less than a second / a minute before a change of offset, written with a mode that rounds up: the
+        // offset printed is the one in force at the ROUNDED instant
+        if rng.chance(1, 2) {
+            let t = rng.range(-1_000_000_000, 2_000_000_000);
+            let (o1, o2) = *rng.pick(&[(-18000i128, -14400i128), (3600, 7200), (7200, 3600), (-2670, 0), (0, 3630), (34200, 37800), (-14400, -18000)]);
+            let zt = format!("z:{o1};{t},{o2}");
+            let before = t * 1_000_000_000 - *rng.pick(&[1i128, 500_000_000, 999_999_999, 30_000_000_000, 59_999_999_999, 400_000]);
+            for (pp, uu) in [("auto", "second"), ("auto", "minute"), ("0", "-"), ("3", "-"), ("auto", "millisecond")] {
+                let mm = *rng.pick(&["ceil", "expand", "halfExpand", "halfCeil", "trunc", "floor", "halfEven"]);
+                v.push(format!("f_zdts {before} {zt} auto auto {pp} {uu} {mm}"));
+            }
+        }
         // durations: both signs, zero fields, sub-second folding, carries
         let sg = if rng.chance(1, 2) { 1 } else { -1 };
         let mut f = [0i128; 10];
